@@ -183,6 +183,22 @@ the acknowledged history `hist`, a restart restores the previous snapshot or the
 def specCrash (hist : List Nat) (b : Nat) (r : Restored) : Bool :=
   r == lastOf hist || r == .ok b
 
+/-! ### the HTTP import handler (`restore_snapshot_handler`)
+
+One `POST /api/snapshot/import`, as the handler orders its work: the import runs first (under
+the store write lock); only a body whose import **succeeded** is handed to `persist_snapshot`
+and acknowledged with 200.  A refused body (not gzip, wrong format version, truncated body,
+corrupt trailer, dangling relationship — whatever makes `import_tenant_with_dedup` return
+`Err`) performs no file-system step at all.  A request is `(payload, importOk)`. -/
+
+def handleReq (fs : FS) (r : Nat × Bool) : FS × Bool :=
+  if r.2 then (persist false r.1 fs, true) else (fs, false)
+
+def handleAll (reqs : List (Nat × Bool)) : FS := reqs.foldl (fun fs r => (handleReq fs r).1) {}
+
+/-- the payloads of the acknowledged (200) requests, in order -/
+def acked (reqs : List (Nat × Bool)) : List Nat := (reqs.filter (·.2)).map (·.1)
+
 /-- the committed states (up to the payload): nothing yet, or a final file and a marker -/
 def committed1 (b : Nat) : FS :=
   { dir := { final := some 0, marker := some 1 },
